@@ -782,7 +782,8 @@ func (c *CharSet) addNamedASCII(name string, negate bool) bool {
 	case "cntrl":
 		rs = []SingleRange{{0, 0x1f}, {0x7f, 0x7f}}
 	case "digit":
-		c.addDigit(false, negate)
+		// POSIX/RE2 [[:digit:]] is [0-9], not every Unicode decimal digit
+		c.addDigit(true, negate)
 	case "graph":
 		rs = []SingleRange{{'!', '~'}}
 	case "lower":
@@ -792,7 +793,8 @@ func (c *CharSet) addNamedASCII(name string, negate bool) bool {
 	case "punct": //[!-/:-@[-`{-~]
 		rs = []SingleRange{{'!', '/'}, {':', '@'}, {'[', '`'}, {'{', '~'}}
 	case "space":
-		c.addSpace(true, false, negate)
+		// POSIX/RE2 [[:space:]] is [\t\n\v\f\r ], without the Unicode spaces of ECMAScript's \s
+		rs = []SingleRange{{'\t', '\r'}, {' ', ' '}}
 	case "upper":
 		rs = []SingleRange{{'A', 'Z'}}
 	case "word":
